@@ -6,8 +6,8 @@
 //   sort <e1> ... <en>   insert into a set_basic in the given order, print the iteration order as operand indices
 // Oracle-only op (the Lean driver answers SKIP; objects are built through the public API from the recipe):
 //   ouniv <seed> <n> <mode>     mode 0: no NaN / no -0.0 doubles, no matrix expressions / multivariate polynomials;
-//                               1: + NaN doubles (D3); 2: + -0.0 doubles (D1); 3: + matrix expressions and
-//                               multivariate polynomials (D17, D2)
+//                               1: + NaN doubles (D3); 2: + -0.0 doubles (D1); 3: + matrix expressions
+//                               (C02-matexpr-compare); 4: + multivariate polynomials (D2)
 // Oracle: on the real objects, for all pairs  cmp in {-1,0,1},  cmp == 0 <=> eq,  cmp(a,b) == -cmp(b,a);
 // for all triples of the representatives  transitivity;  a set_basic filled in three different orders iterates
 // in the same order and holds one element per eq-class.
@@ -119,66 +119,9 @@ static void check_pair(const Basic &a, const Basic &b, Verdict &v)
     }
 }
 
-static std::vector<B> make_universe(uint64_t seed, unsigned n, int mode)
-{
-    Rng r(seed);
-    xg::Gen g(r, true, mode == 1 ? 120 : 0);
-    g.no_negzero = mode != 2;
-    g.no_matexpr = mode != 3;
-    g.no_mpoly = mode != 3;
-    std::vector<B> u;
-    // every number kind with coinciding values, the special values
-    std::vector<B> fixed{integer(0), integer(1), integer(-1), integer(2), Rational::from_two_ints(1, 2),
-                         Rational::from_two_ints(-1, 2), real_double(1.0), real_double(0.0), real_double(2.0),
-                         real_double(0.5), complex_double(std::complex<double>(1.0, 0.0)),
-                         complex_double(std::complex<double>(0.0, 1.0)), Complex::from_two_nums(*integer(1), *integer(1)),
-                         Complex::from_two_nums(*integer(0), *integer(1)), Inf, NegInf, ComplexInf, Nan,
-                         real_double(std::numeric_limits<double>::infinity()),
-                         real_double(-std::numeric_limits<double>::infinity()), symbol("x"), symbol("y"), pi, E,
-                         boolTrue, boolFalse, emptyset(), reals(), integers(), universalset()};
-    for (auto &f : fixed)
-        u.push_back(f);
-    if (mode == 1) {
-        u.push_back(real_double(std::numeric_limits<double>::quiet_NaN()));
-        u.push_back(complex_double(std::complex<double>(std::numeric_limits<double>::quiet_NaN(), 1.0)));
-        u.push_back(complex_double(std::complex<double>(1.0, std::numeric_limits<double>::quiet_NaN())));
-    }
-    if (mode == 2) {
-        u.push_back(real_double(-0.0));
-        u.push_back(complex_double(std::complex<double>(-0.0, 1.0)));
-        u.push_back(function_symbol("f", B(real_double(0.0))));
-        u.push_back(function_symbol("f", B(real_double(-0.0))));
-        u.push_back(add(function_symbol("f", B(real_double(0.0))), symbol("y")));
-        u.push_back(add(function_symbol("f", B(real_double(-0.0))), symbol("y")));
-        u.push_back(mul(function_symbol("f", B(real_double(0.0))), symbol("y")));
-        u.push_back(mul(function_symbol("f", B(real_double(-0.0))), symbol("y")));
-    }
-    while (u.size() < n) {
-        B e = g.any((int)r.below(3));
-        u.push_back(e);
-        // near neighbours: same structure, one ingredient changed; an independently rebuilt copy
-        if (r.coin(1, 6) && u.size() < n) {
-            try {
-                u.push_back(add(e, g.sym()));
-            } catch (const std::exception &) {
-            }
-        }
-        if (r.coin(1, 6) && u.size() < n) {
-            try {
-                if (xg::dumpable(*e))
-                    u.push_back(vsexp::parse(vsexp::dump(*e)));
-            } catch (const std::exception &) {
-            }
-        }
-        if (mode == 2 && r.coin(1, 4) && u.size() < n)
-            u.push_back(xg::flip_zero_signs(e));
-    }
-    return u;
-}
-
 static std::string run_universe(uint64_t seed, unsigned n, int mode, std::string &oracle)
 {
-    std::vector<B> u = make_universe(seed, n, mode);
+    std::vector<B> u = xg::make_universe(seed, n, mode);
     n = (unsigned)u.size();
     Verdict v;
     std::vector<signed char> M((size_t)n * n);
@@ -403,11 +346,11 @@ void hx_gen(Rng &r0, const std::string &tier)
     emit("cmp 9223372036854775807/2 9223372036854775809/2", "cmp-bigint");
 
     // oracle universes
-    int nu = th ? 10 : 5;
+    int nu = th ? 11 : 6;
     unsigned usize = th ? 1500 : 320;
     for (int i = 0; i < nu; i++) {
-        int mode = i < 2 ? 0 : (i - 2) % 4;
-        static const char *mn[] = {"clean", "nan", "signed-zero", "matexpr-mpoly"};
+        int mode = i == 0 ? 0 : (i - 1) % 5;
+        static const char *mn[] = {"clean", "nan", "signed-zero", "matexpr", "mpoly"};
         emit("ouniv " + std::to_string(r.next() % 1000000007ULL) + " " + std::to_string(usize) + " " + std::to_string(mode),
              std::string("ouniv-") + mn[mode]);
     }
